@@ -267,6 +267,15 @@ pub fn panic_signature(loc: &str, msg: &str, frames: &[String]) -> String {
     } else {
         file[file.find("crates/").unwrap_or(0)..].to_string()
     };
+    // `unwrap()` on an Err prints the error's Debug text, which depends on the input: keep
+    // the type name only
+    let msg: String = match msg.split_once("on an `Err` value: ") {
+        Some((head, tail)) => {
+            let ty: String = tail.chars().take_while(|c| c.is_alphanumeric() || *c == '_' || *c == ':').collect();
+            format!("{head}on an `Err` value: {ty}")
+        }
+        None => msg.to_string(),
+    };
     let mut short = String::new();
     let mut in_digits = false;
     for c in msg.chars() {
